@@ -20,6 +20,9 @@
   xdiagram  := <dims dom> <nlayers> xlayer*
     xeval <xdiagram>                     -> ok <n> poly*      evaluation of a diagram with bubbles
     xgrad <checksFS> <i> <xdiagram>      -> ok <terms> <n> poly*   eval of d.grad(x_i) (Bubble.grad = chain rule)
+    xfree <xdiagram>                     -> ok <k> <index>*   free symbols of a diagram with bubbles (Model/ParamXSyms.lean)
+    xsubsfree <i> <poly q> <xdiagram>    -> ok <k> <index>*   free symbols of d.subs(x_i, q)
+    xsubseval <i> <poly q> <xdiagram>    -> ok <n> poly*      eval (d.subs(x_i, q)), bubbles rebuilt around inside.subs
   sequences (Model/ParamSeq.lean: the diagram with its redundant copies boxes / offsets / layers):
     psubs2eval <i> <poly q> <j> <poly r> <pdiagram> -> ok <n> poly*   eval (d.subs(x_i,q).subs(x_j,r))
     psliceeval <i> <poly q> <a> <b> <pdiagram>      -> ok <n> poly*   eval (d.subs(x_i,q)[a:b])
@@ -39,6 +42,7 @@ import Model.Param
 import Model.ParamSeq
 import Model.ParamData
 import Model.ParamSum
+import Model.ParamXSyms
 
 namespace DV.ParamCmd
 open DV DV.Codec DV.Param
@@ -216,6 +220,15 @@ def handle (cmd : String) (rest : List String) : Option String :=
       fun (f, i, (dom, ls)) =>
         let g := polyXGrad f i ls
         s!"ok {g.length} " ++ pMat (xevalSum Poly.const g) (prod dom) (prod (xcod dom ls))
+  | "xfree" => some <| run xdiagram rest fun (_, ls) =>
+      "ok " ++ pList toString (xfreeSymbolsL Poly.vars ls)
+  | "xsubsfree" => some <| run (do let i ← nat; let q ← poly; let d ← xdiagram; pure (i, q, d)) rest
+      fun (i, q, (_, ls)) =>
+        "ok " ++ pList toString (xfreeSymbolsL Poly.vars (ls.map (XLayer.mapData (Poly.subst1 i q))))
+  | "xsubseval" => some <| run (do let i ← nat; let q ← poly; let d ← xdiagram; pure (i, q, d)) rest
+      fun (i, q, (dom, ls)) =>
+        "ok " ++ pMat (xevalLayers Poly.const (ls.map (XLayer.mapData (Poly.subst1 i q))))
+          (prod dom) (prod (xcod dom ls))
   | "dfree" => some <| run (do let z ← bool; let d ← pdata; pure (z, d)) rest
       fun (z, d) => "ok " ++ pList toString (d.freeSymbols z Poly.vars)
   | "dsubsfree" => some <| run (do let z ← bool; let i ← nat; let q ← poly; let d ← pdata; pure (z, i, q, d)) rest
